@@ -477,15 +477,16 @@ def check_twin(inp):
     lay = mk_layer(ms, f, 1.0, eps, **micro_params(ms, rng, sz * C_SPEED / nu))
     s = sensor(nu)
     out = []
-    for name in SYMMETRIC:
-        if name.endswith("shortrange") and not hasattr(lay.microstructure, "autocorrelation_function"):
+    for name0, opts in [(n, {}) for n in SYMMETRIC] + [(n, {"scaled": False}) for n in SYMMETRIC]:
+        name = name0 + ("" if not opts else "(scaled=False)")
+        if name0.endswith("shortrange") and not hasattr(lay.microstructure, "autocorrelation_function"):
             continue
         try:
-            a = em(name)(s, lay)
+            a = em(name0)(s, lay, **opts)
         except Exception:  # noqa   the theory refuses this microstructure (no real-space form / no inv_slope_at_origin): not a wrong value
             continue
         try:
-            b = em(name)(s, lay.inverted_medium())
+            b = em(name0)(s, lay.inverted_medium(), **opts)
         except Exception as e:  # noqa
             out.append((f"inversion-twin:{name}:{ms}", f"{name} accepts {ms} (f={f:.4f}) but raises {type(e).__name__} on its inverted twin: {e}",
                         type(e).__name__, "same as the original layer"))
